@@ -8,7 +8,7 @@ From Coq Require Import List Bool Arith QArith Lia.
 Import ListNotations.
 Require Import Model.C14_Finder Proofs.C14_FinderProofs Proofs.C14_QuadProofs.
 Require Import Gen.C14GenAffine Gen.C14GenTri Gen.C14GenTet Gen.C14GenSplits Gen.C14GenProbes Gen.C14GenLine.
-Require Import Dyn.C14_TieGeom Dyn.C14_TieFinder Dyn.C14_TieSplit Dyn.C14_TieProbes Dyn.C14_TieLine Dyn.C14_TieQuad.
+Require Import Dyn.C14_TieGeom Dyn.C14_TieFinder Dyn.C14_TieSplit Dyn.C14_TieProbes Dyn.C14_TieLine Dyn.C14_TieQuad Dyn.C14_SplitBary Dyn.C14_TieHexWedge.
 Local Open Scope Q_scope.
 
 (* finder_sound: for every mesh, every batch of points, every candidate list and every slack eps, each returned cell c
@@ -96,15 +96,14 @@ Print Assumptions C14_split_index_map.
 (* finite certificates on the reference cells (exhaustive over the regenerated tables): the split simplices use only
    vertices of the cell, are non-degenerate, their volumes add up to the cell's (sum |det| = d! * |cell|), and every
    two of them are separated by a checked linear functional (so they share boundary points only:
-   Proofs.separated_common_points_on_plane).  PARTIAL: "contained + disjoint interiors + equal volume => the simplices
-   tile the cell" and the lift from the reference cell to parallelogram / box cells are not formalised; hexahedra with
-   non-planar faces are covered by the oracle only. *)
-Theorem C14_split_certificates_partial :
+   Proofs.separated_common_points_on_plane).  Together with C14_quad_split_tiles / C14_reference_splits_tile (coverage and
+   containment for ALL rational points) the splits tile the reference cells. *)
+Theorem C14_split_certificates :
     (split_ok gen_quad_refp gen_quad_sels 4 2 = true /\ all_pairs_separated gen_quad_refp gen_quad_sels gen_quad_certs = true) /\
     (split_ok gen_hex_refp gen_hex_sels 8 6 = true /\ all_pairs_separated gen_hex_refp gen_hex_sels gen_hex_certs = true) /\
     (split_ok gen_wedge_refp gen_wedge_sels 6 3 = true /\ all_pairs_separated gen_wedge_refp gen_wedge_sels gen_wedge_certs = true).
 Proof. exact (conj quad_split_certificate (conj hex_split_certificate wedge_split_certificate)). Qed.
-Print Assumptions C14_split_certificates_partial.
+Print Assumptions C14_split_certificates.
 
 (* ---- quadrilaterals: the tiling step, formalised.  For every strictly convex quadrilateral v0 v1 v2 v3 (cyclic order,
    orientation s = +-1, the four corner triangles have strictly that orientation) and every point p:
@@ -137,13 +136,60 @@ Theorem C14_quad_finder_sound : forall (s : nat -> Q) (quad : nat -> nat -> nat 
 Proof. exact quad_finder_sound. Qed.
 Print Assumptions C14_quad_finder_sound.
 
+(* ---- hexahedra and prisms with AFFINE cells (parallelepipeds: vertex v of cell c is o c + A c * (reference vertex v);
+   affine prisms likewise), non-degenerate split tetrahedra.  A point is in cell c iff it is o c + A c * xi with xi in the
+   reference cube [0,1]^3 (resp. the reference prism).  Then the finder over the REGENERATED six- (three-) tetrahedra split
+   is complete — every batch of points each lying in some cell is located, every candidate list, every slack >= 0 —
+   and, with slack 0, sound: the returned cell k mod nt contains the point.  (Reference level: the split tetrahedra cover
+   the reference cell and stay inside it, by linear arithmetic on barycentric forms regenerated and proved per run; the
+   same tables are the literals of Proofs.C18_TilingProofs: Dyn.C14_TieHexWedge.split_tables_are_C18_literals.) *)
+Theorem C14_hex_finder_complete : forall cell o A nt eps cand xs,
+    affine_cells gen_hex_refp 8 cell o A nt -> nondegenerate gen_hex_sels cell nt -> (0 < nt)%nat -> 0 <= eps ->
+    (forall x, In x xs -> exists c, (c < nt)%nat /\ in_affine_cell in_cube o A c x) ->
+    exists r, gen_hex_finder (tet_inside_cell eps (hex_split cell nt)) nt cand xs = Some r /\ Forall (fun c => c < nt)%nat r.
+Proof. exact hex_finder_complete. Qed.
+Print Assumptions C14_hex_finder_complete.
+
+Theorem C14_hex_finder_sound : forall cell o A nt cand xs r,
+    affine_cells gen_hex_refp 8 cell o A nt -> nondegenerate gen_hex_sels cell nt -> (0 < nt)%nat ->
+    (forall k, In k cand -> (k < 6 * nt)%nat) ->
+    gen_hex_finder (tet_inside_cell 0 (hex_split cell nt)) nt cand xs = Some r ->
+    Forall2 (fun x c => (c < nt)%nat /\ in_affine_cell in_cube o A c x) xs r.
+Proof. exact hex_finder_sound. Qed.
+Print Assumptions C14_hex_finder_sound.
+
+Theorem C14_wedge_finder_complete : forall cell o A nt eps cand xs,
+    affine_cells gen_wedge_refp 6 cell o A nt -> nondegenerate gen_wedge_sels cell nt -> (0 < nt)%nat -> 0 <= eps ->
+    (forall x, In x xs -> exists c, (c < nt)%nat /\ in_affine_cell in_prism o A c x) ->
+    exists r, gen_wedge_finder (tet_inside_cell eps (wedge_split cell nt)) nt cand xs = Some r /\ Forall (fun c => c < nt)%nat r.
+Proof. exact wedge_finder_complete. Qed.
+Print Assumptions C14_wedge_finder_complete.
+
+Theorem C14_wedge_finder_sound : forall cell o A nt cand xs r,
+    affine_cells gen_wedge_refp 6 cell o A nt -> nondegenerate gen_wedge_sels cell nt -> (0 < nt)%nat ->
+    (forall k, In k cand -> (k < 3 * nt)%nat) ->
+    gen_wedge_finder (tet_inside_cell 0 (wedge_split cell nt)) nt cand xs = Some r ->
+    Forall2 (fun x c => (c < nt)%nat /\ in_affine_cell in_prism o A c x) xs r.
+Proof. exact wedge_finder_sound. Qed.
+Print Assumptions C14_wedge_finder_sound.
+
+(* the reference-cell facts themselves: cover and containment, for all rational points *)
+Theorem C14_reference_splits_tile :
+    (forall xi : nat -> Q, in_cube (xi 0%nat) (xi 1%nat) (xi 2%nat) <->
+       exists b, (b < 6)%nat /\ gen_tet_inside 0 (tetX (ref_tet gen_hex_refp gen_hex_sels b) xi) = true) /\
+    (forall xi : nat -> Q, in_prism (xi 0%nat) (xi 1%nat) (xi 2%nat) <->
+       exists b, (b < 3)%nat /\ gen_tet_inside 0 (tetX (ref_tet gen_wedge_refp gen_wedge_sels b) xi) = true).
+Proof.
+  split; intros xi; split.
+  - exact (hex_ref_cover xi). - intros [b [Hb H]]. exact (hex_ref_inside b xi Hb H).
+  - exact (wedge_ref_cover xi). - intros [b [Hb H]]. exact (wedge_ref_inside b xi Hb H).
+Qed.
+Print Assumptions C14_reference_splits_tile.
+
 (* the finder of a non-simplex mesh returns cell numbers < nt that are (simplex found by a sound location) mod nt.
-   For quadrilaterals the full statement is C14_quad_finder_sound / _complete above.  PARTIAL for hexahedra and prisms
-   (full statement: the returned cell contains the point, and a cell is returned for every point of the domain).
-   What is ASSUMED there and not formalised: (i) the six (three) tetrahedra of the certificate — vertices of the cell,
-   non-degenerate, volumes adding up to the cell's, pairwise separated — tile the reference cube (prism);
-   (ii) tiling is preserved by the affine map onto a parallelepiped (affine image of the prism); (iii) nothing is
-   claimed for trilinear hexahedra that are not parallelepipeds (planar-face frusta and non-planar faces: search only). *)
+   For quadrilaterals, parallelepipeds and affine prisms the full statements are C14_quad_/hex_/wedge_finder_sound and
+   _complete above.  This theorem is what remains for TRILINEAR hexahedra that are not parallelepipeds (planar-face
+   frusta, non-planar faces) and non-affine prisms: only the modulo map; containment and coverage there: search only. *)
 Theorem C14_nonsimplex_finder_sound_partial :
   forall (P : Type) (inside : nat -> P -> bool) (nt : nat) cand xs r, (0 < nt)%nat ->
     (gen_quad_finder inside nt cand xs = Some r \/ gen_hex_finder inside nt cand xs = Some r \/ gen_wedge_finder inside nt cand xs = Some r) ->
